@@ -193,6 +193,14 @@ MarkElement(ts, i) ==
     ELSE LET j == CloseOf(ts, i, 0)
          IN SubSeq(ts, 1, i) \o <<E("bm", 0)>> \o SubSeq(ts, i + 1, j - 1) \o <<E("bm", 0)>> \o SubSeq(ts, j, Len(ts))
 
+(* after = <element> (insert_note, insert_annotation; no address at all = the paragraph itself): the new element becomes *)
+(* the FIRST CHILD of that element - it stands after the element's leading text, if any                                  *)
+MarkFirstChild(ts, i) ==
+    LET k == i + 1
+    IN IF i > 0 /\ ts[i].k # "o" THEN ts
+       ELSE IF k <= Len(ts) /\ ts[k].k = "t" THEN SubSeq(ts, 1, k) \o <<E("bm", 0)>> \o SubSeq(ts, k + 1, Len(ts))
+       ELSE SubSeq(ts, 1, k - 1) \o <<E("bm", 0)>> \o SubSeq(ts, k, Len(ts))
+
 (* strip_tags called ON an inline element (span.remove_spans(), link.strip_tags(...)): when the element's own tag  *)
 (* is stripped the call returns a NEW paragraph holding what was inside (nested tags of that kind stripped too)     *)
 (* followed by the element's tail, and leaves the paragraph alone; otherwise it works in place, inside the element  *)
@@ -247,6 +255,7 @@ ApplyOp(ts, o) ==
       [] o.op = "mark_range"      -> MarkRange(ts, o.a, o.b)
       [] o.op = "mark_content"    -> MarkContent(ts, o.p, o.nth)
       [] o.op = "mark_element"    -> MarkElement(ts, o.i)
+      [] o.op = "mark_first_child" -> MarkFirstChild(ts, o.i)
       [] o.op = "strip_tags"      -> StripTags(ts, o.tag, <<>>)
       [] o.op = "delete"          -> DeleteAt(ts, o.i)
       [] o.op = "strip_self"      -> StripSelf(ts, o.i, o.tag, TRUE)
